@@ -715,3 +715,43 @@ Lemma reachable_wf ng t ops : wf (s_pool (run ng (mks t p_init) ops)).
 Proof. apply run_wf. exact wf_init. Qed.
 Lemma sequential_no_orphans_init ops urls c : orphan (snd (p_run (urls, p_init) ops)) c = false.
 Proof. apply (sequential_no_orphans ops (urls, p_init)); [exact wf_init | exact accounted_init]. Qed.
+
+(* ---- message size limits ---- *)
+Theorem relay_within_limits rx tx req resp :
+  req <= rx -> resp <= tx -> resp <= rx -> relay_sized rx tx req resp = mksized true true 0.
+Proof.
+  intros H1 H2 H3. unfold relay_sized.
+  destruct (rx <? req) eqn:E1; [apply N.ltb_lt in E1; lia|].
+  destruct (rx <? resp) eqn:E2; [apply N.ltb_lt in E2; lia|].
+  destruct (tx <? resp) eqn:E3; [apply N.ltb_lt in E3; lia|]. reflexivity.
+Qed.
+Theorem request_limit_is_rx rx tx req resp :
+  sz_backend_got (relay_sized rx tx req resp) = true <-> req <= rx.
+Proof.
+  unfold relay_sized. destruct (rx <? req) eqn:E1.
+  - apply N.ltb_lt in E1. cbn [sz_backend_got]. split; [discriminate | lia].
+  - apply N.ltb_ge in E1. destruct ((rx <? resp) || (tx <? resp)); cbn [sz_backend_got]; tauto.
+Qed.
+Theorem response_limit_is_min rx tx req resp :
+  sz_caller_got (relay_sized rx tx req resp) = true <-> req <= rx /\ resp <= tx /\ resp <= rx.
+Proof.
+  unfold relay_sized. destruct (rx <? req) eqn:E1.
+  - apply N.ltb_lt in E1. cbn [sz_caller_got]. split; [discriminate | lia].
+  - apply N.ltb_ge in E1. destruct (rx <? resp) eqn:E2; cbn [orb].
+    + apply N.ltb_lt in E2. cbn [sz_caller_got]. split; [discriminate | lia].
+    + apply N.ltb_ge in E2. destruct (tx <? resp) eqn:E3; cbn [sz_caller_got].
+      * apply N.ltb_lt in E3. split; [discriminate | lia].
+      * apply N.ltb_ge in E3. tauto.
+Qed.
+Theorem sized_status rx tx req resp :
+  sz_code (relay_sized rx tx req resp) = 0 <-> sz_caller_got (relay_sized rx tx req resp) = true.
+Proof.
+  unfold relay_sized. destruct (rx <? req); [cbn; split; discriminate|].
+  destruct ((rx <? resp) || (tx <? resp)); cbn; split; try discriminate; reflexivity.
+Qed.
+Example relay_within_limits_nonvacuous :
+  relay_sized 8388608 1048576 2097152 10 = mksized true true 0 /\
+  relay_sized 8388608 1048576 10 2097152 = mksized true false 8 /\
+  relay_sized 1048576 8388608 10 2097152 = mksized true false 8 /\
+  relay_sized 1048576 8388608 2097152 10 = mksized false false 8.
+Proof. vm_compute. repeat split. Qed.
